@@ -105,6 +105,10 @@ pub fn run_extra(kind: &str, l: &[Sx]) -> String {
     match kind {
         "tot" => tot_case(l),
         "arity" => arity_case(),
+        "rtext" => rtext_case(l),
+        "stext" => stext_case(l),
+        "lay" => lay_case(l),
+        "uniclass" => uniclass(atom(&l[2]).parse().unwrap(), atom(&l[3]).parse().unwrap()),
         _ => panic!("unknown case kind {kind}"),
     }
 }
@@ -266,4 +270,151 @@ fn arity_case() -> String {
         bad_arity.join(","),
         bad_count.join(",")
     )
+}
+
+// ranges of char::is_alphabetic / char::is_numeric within [lo, hi] (surrogates are not chars: neither)
+fn uniclass(lo: u32, hi: u32) -> String {
+    fn ranges(lo: u32, hi: u32, p: fn(char) -> bool) -> String {
+        let mut out = vec![];
+        let mut start: Option<u32> = None;
+        for c in lo..=hi {
+            let v = char::from_u32(c).map(p).unwrap_or(false);
+            match (v, start) {
+                (true, None) => start = Some(c),
+                (false, Some(s)) => {
+                    out.push(format!("{}-{}", s, c - 1));
+                    start = None;
+                }
+                _ => {}
+            }
+        }
+        if let Some(s) = start {
+            out.push(format!("{}-{}", s, hi));
+        }
+        out.join(",")
+    }
+    format!("R=A:{};N:{}", ranges(lo, hi, char::is_alphabetic), ranges(lo, hi, char::is_numeric))
+}
+
+// ---------- front end: expected results and re-rendering ----------
+fn op_sym(o: Operator) -> (&'static str, u8) {
+    use Operator::*;
+    match o {
+        Or => ("or", 1),
+        And => ("and", 2),
+        Xor => ("xor", 3),
+        Equal => ("=", 4),
+        NotEqual => ("<>", 4),
+        Less => ("<", 5),
+        LessEqual => ("<=", 5),
+        Greater => (">", 5),
+        GreaterEqual => (">=", 5),
+        Plus => ("+", 6),
+        Minus => ("-", 6),
+        Multiply => ("*", 7),
+        Divide => ("/", 7),
+        Div => ("div", 7),
+        Mod => ("mod", 7),
+        Not => ("not", 8),
+        TernaryCondition => ("?", 0),
+    }
+}
+// source-expressible: what the property quantifies over (no conditionals, no array literals, finite non-negative numbers)
+pub fn source_expressible(e: &Expression) -> bool {
+    match e {
+        Expression::Unary { right, operator } => matches!(operator, Operator::Minus | Operator::Not) && source_expressible(right),
+        Expression::Binary { left, right, operator } => !matches!(operator, Operator::Not | Operator::TernaryCondition) && source_expressible(left) && source_expressible(right),
+        Expression::Ternary { .. } => false,
+        Expression::Array { expressions } => expressions.iter().all(source_expressible),
+        Expression::Literal { value } => match value {
+            Value::Number(n) => n.is_finite() && n.is_sign_positive(),
+            Value::Array(_) => false,
+            _ => true,
+        },
+        Expression::Variable { .. } => true,
+        Expression::Call { params, .. } => params.iter().all(source_expressible),
+    }
+}
+// independent renderer: minimal parentheses (full = false) or every operator application parenthesised (full = true)
+pub fn render(e: &Expression, ctx: u8, full: bool) -> String {
+    let (inner, p) = match e {
+        Expression::Literal { value } => (
+            match value {
+                Value::Boolean(b) => format!("{b}"),
+                Value::Number(n) => format!("{n}"),
+                Value::String(s) => format!("'{}'", s.replace('\'', "''")),
+                Value::Array(_) => "?".to_string(),
+            },
+            10,
+        ),
+        Expression::Variable { name } => (name.clone(), 10),
+        Expression::Unary { right, operator } => (format!("{} {}", if *operator == Operator::Minus { "-" } else { "not" }, render(right, 8, full)), 8),
+        Expression::Binary { left, right, operator } => {
+            let (sym, q) = op_sym(*operator);
+            (format!("{} {} {}", render(left, q, full), sym, render(right, q + 1, full)), q)
+        }
+        Expression::Array { expressions } => (format!("[{}]", expressions.iter().map(|x| render(x, 1, full)).collect::<Vec<_>>().join(", ")), 10),
+        Expression::Call { name, params } => (format!("{}({})", name, params.iter().map(|x| render(x, 1, full)).collect::<Vec<_>>().join(", ")), 10),
+        Expression::Ternary { .. } => ("?".to_string(), 10),
+    };
+    if ctx > p || (full && p < 10) {
+        format!("({inner})")
+    } else {
+        inner
+    }
+}
+fn split_exp(l: &[Sx]) -> (Option<String>, String) {
+    // (kind id (exp cps...) cps...)
+    let ex = list(&l[2]);
+    let exp = if ex.len() > 1 { Some(cps_to_string(&ex[1..])) } else { None };
+    (exp, cps_to_string(&l[3..]))
+}
+fn rtext_case(l: &[Sx]) -> String {
+    let (exp, text) = split_exp(l);
+    let r = compile(&text);
+    let rs = match &r {
+        Ok(e) => format!("R=ok:{}", show_expr(e)),
+        Err(e) => format!("R=err:{}", show_cerr(e)),
+    };
+    let expect = match &exp {
+        Some(x) => if *x == rs { "holds" } else { "FAILS" },
+        None => "n/a",
+    };
+    let reparse = match &r {
+        Ok(e) if source_expressible(e) => {
+            let a = compile(&render(e, 1, false));
+            let b = compile(&render(e, 1, true));
+            let same = |x: &Result<Expression, Error>| matches!(x, Ok(t) if show_expr(t) == show_expr(e));
+            if same(&a) && same(&b) { "holds" } else { "FAILS" }
+        }
+        _ => "n/a",
+    };
+    format!("{rs} ## expect={expect} reparse={reparse}")
+}
+fn scan_str(text: &str) -> String {
+    match Scanner::tokenize(text) {
+        Ok(ts) => format!("R=ok:{}", ts.iter().map(show_tok).collect::<Vec<_>>().join(" ")),
+        Err(e) => format!("R=err:{}", show_cerr(&e)),
+    }
+}
+fn stext_case(l: &[Sx]) -> String {
+    let (exp, text) = split_exp(l);
+    let rs = scan_str(&text);
+    let expect = match &exp {
+        Some(x) => if *x == rs { "holds" } else { "FAILS" },
+        None => "n/a",
+    };
+    format!("{rs} ## expect={expect}")
+}
+fn lay_case(l: &[Sx]) -> String {
+    let a = cps_to_string(&list(&l[2])[1..]);
+    let b = cps_to_string(&list(&l[3])[1..]);
+    let (ra, rb) = (scan_str(&a), scan_str(&b));
+    let (ca, cb) = (compile(&a), compile(&b));
+    let same_tree = match (&ca, &cb) {
+        (Ok(x), Ok(y)) => show_expr(x) == show_expr(y),
+        (Err(x), Err(y)) => show_cerr(x) == show_cerr(y),
+        _ => false,
+    };
+    format!("{ra} ## layout={} tree={}", if ra == rb { "holds" } else { "FAILS" }, if same_tree { "holds" } else { "FAILS" })
 }
